@@ -103,6 +103,21 @@ func Open(options Options) (*DB, error) {
 		}},
 	}
 
+	// 初始化失败时需关闭已打开的文件并释放文件锁, 否则目录无法再次打开
+	var opened bool
+	defer func() {
+		if opened {
+			return
+		}
+		if db.activeFile != nil {
+			_ = db.activeFile.Close()
+		}
+		for _, file := range db.olderFiles {
+			_ = file.Close()
+		}
+		_ = fileLock.Unlock()
+	}()
+
 	// 尝试加载 merge 临时目录中的数据文件
 	// 当 nonMergeFileId == 0 时可表示 merge 失败, 否则成功
 	nonMergeFileId, err := db.loadMergeFiles()
@@ -162,6 +177,7 @@ func Open(options Options) (*DB, error) {
 		}()
 	}
 
+	opened = true
 	return db, nil
 }
 
